@@ -72,7 +72,7 @@ static void functional_cycle (const tup_t *t, of_session_t *s)
 	of_status_t st;
 	tup_t tw = *t;
 	int own_enc = 0, own_dec = 0, loss;
-	if ((uint64_t) n * len > (64u << 20) || len > 65536) return;
+	if ((uint64_t) n * len > (160u << 20) || (len > 65537 && n > 4)) return;
 	vf_stat_add (st_func, 1);
 	sym = calloc (n, sizeof (void *)); tab = calloc (n, sizeof (void *));
 	for (i = 0; i < n; i++) { uint32_t j; sym[i] = malloc (len); for (j = 0; j < len; j++) sym[i][j] = i < k ? (unsigned char) (vf_mix64 ((uint64_t) i * 1315423911u + j) >> 7) : 0; tab[i] = sym[i]; }
@@ -300,6 +300,31 @@ int main (int argc, char **argv)
 					}
 				}
 			}
+		{	/* interior values: counters, table sizes and products that wrap at 8 / 16 / 24 / 32 bits (the limits above are
+			 * not the only places where a width can be too small) */
+			static const uint32_t lr[] = {255, 256, 257, 258, 259, 260, 300, 511, 512, 513, 767, 768, 1023, 1024, 1025, 4095, 4096, 4097, 32767, 32768, 32769, 49000};
+			static const uint32_t lk[] = {1, 2, 10, 255, 256, 257, 1000};
+			static const uint32_t ln1[] = {3, 4, 5, 10, 45, 100, 255};
+			static const uint32_t rk[] = {16, 31, 32, 33, 63, 64, 65, 127, 128, 129, 200, 250};
+			static const uint32_t hl[] = {100, 255, 256, 257, 4096, 65535, 65536, 65537, 1u << 20, 16843009u, 16843010u, (1u << 24) + 1};
+			int x, y, z;
+			for (x = 0; x < (int) (sizeof lr / sizeof lr[0]); x++) for (y = 0; y < (int) (sizeof lk / sizeof lk[0]); y++) for (z = 0; z < (int) (sizeof ln1 / sizeof ln1[0]); z++) {
+				if (!thorough && lr[x] > 5000 && (y > 1 || z > 1)) continue;
+				if (!thorough && (x + y + z) % 3 && lr[x] > 600 && lk[y] > 10) continue;
+				add_tu (3, roles[(x + y + z) % 3], lk[y], lr[x], 8, 8, ln1[z], 1 + z);
+				if (thorough) { add_tu (3, roles[(x + y + z + 1) % 3], lk[y], lr[x], 8, 8, ln1[z], 1 + z); add_tu (3, roles[(x + y + z + 2) % 3], lk[y], lr[x], 8, 8, ln1[z], 1 + z); }
+			}
+			for (x = 0; x < (int) (sizeof rk / sizeof rk[0]); x++) for (role = 0; role < 3; role++) {
+				static const uint32_t rr[] = {1, 3, 5};
+				for (y = 0; y < 3; y++) { add_tu (1, roles[role], rk[x], rr[y], 8, 8, 0, 0); add_tu (2, roles[role], rk[x], rr[y], 8, 8, 0, 0); }
+				add_tu (1, roles[role], rk[x], 255 - rk[x], 8, 8, 0, 0); add_tu (2, roles[role], rk[x], 255 - rk[x], 8, 8, 0, 0);
+			}
+			for (x = 0; x < (int) (sizeof hl / sizeof hl[0]); x++) for (role = 0; role < 3; role++) for (y = 1; y <= 2; y++) {
+				if (!thorough && hl[x] > 70000 && role != (x % 3) && role != 1) continue;
+				add_tu (1, roles[role], (uint32_t) y, (uint32_t) y, hl[x], 8, 0, 0); add_tu (2, roles[role], (uint32_t) y, (uint32_t) y, hl[x], 8, 0, 0);
+				add_tu (2, roles[role], (uint32_t) y, (uint32_t) y, hl[x], 4, 0, 0); add_tu (3, roles[role], (uint32_t) y, 3, hl[x], 8, 3, 1);
+			}
+		}
 		vf_note ("grid: %ld tuples", NTU);
 		vf_pool_run (NTU, grid_item, NULL, 120);
 	} else {
